@@ -70,6 +70,12 @@ def gen_scene(rng, *, single=False, max_frames=4, max_animals=3, allow_empty_ins
                 x = min(max(cx + rng.uniform(-9, 9), 1.0), W - 2.0)
                 y = min(max(cy + rng.uniform(-9, 9), 1.0), H - 2.0)
                 pts.append([snap(x), snap(y)])
+            if rng.random() < 0.1:
+                # an animal hugging the right or bottom frame border: every node within the last few pixel columns / rows
+                ax = rng.randrange(2)
+                lim = (W if ax == 0 else H)
+                for q in pts:
+                    q[ax] = snap(rng.uniform(lim - 5.0, lim - 2.0))
             if rng.random() < nan_p:
                 order = list(range(n_nodes))
                 rng.shuffle(order)
@@ -174,6 +180,23 @@ def gen_ds_cfg(rng, scene, kind, scale_one=False):
             # a user-given crop size: (height, width), not necessarily square nor a multiple of max_stride (the crop is stride-padded)
             cfg["crop_hw"] = [rng.choice([18, 20, 28, 36, 44]), rng.choice([18, 20, 28, 36, 44])]
     return cfg
+
+
+def stale_scene(scene):
+    """The same project as it looked before the user edited it: keypoints elsewhere, other nodes missing (same number of
+    samples, so every stale file has a namesake that must be overwritten)."""
+    sc = copy.deepcopy(scene)
+    for f in sc["frames"]:
+        H, W = sc["sizes"][f["video"]]
+        for i in f["instances"]:
+            i.pop("hidden", None)
+            vis = [j for j, p in enumerate(i["pts"]) if p[0] == p[0]]
+            if not vis:
+                continue  # an empty instance stays empty: the number of samples must not change
+            i["pts"] = [[min(max(p[0] + 4.0, 1.0), W - 2.0), min(max(p[1] - 3.0, 1.0), H - 2.0)] if p[0] == p[0] else [min(7.0 + j, W - 2.0), 9.0] for j, p in enumerate(i["pts"])]
+            if len(vis) > 1:
+                i["pts"][vis[0]] = [float("nan"), float("nan")]
+    return sc
 
 
 # ------------------------------------------------------------------ snapshots
